@@ -7,6 +7,7 @@ import (
 	"runtime"
 	"strings"
 	"syscall"
+	"time"
 	"unsafe"
 )
 
@@ -68,6 +69,7 @@ func (c *stepCtx) stepScale(st map[string]interface{}) string {
 		var alloc uint64
 		out, n := "ok", 0
 		for rep := 0; rep < 3; rep++ {
+			stepStart.Store(time.Now().UnixNano()) // the watchdog limit applies to one call, not to the whole series
 			dest := reflect.New(d.rt)
 			var m0, m1 runtime.MemStats
 			runtime.ReadMemStats(&m0)
